@@ -1,7 +1,10 @@
 #![allow(dead_code)]
 mod hub;
 mod seq;
+mod provider;
+mod runs;
 mod srv;
+mod sse;
 mod sub;
 mod store;
 mod util;
@@ -33,6 +36,7 @@ fn main() {
         "cachediff" => seq::engine_cachediff(cases, &mut out),
         "overtake" => seq::engine_overtake(&rt, cases, &mut out),
         "sub" => sub::engine_sub(&rt, cases, &mut out),
+        "sse" => sse::engine_sse(&rt, cases, &mut out),
         other => {
             eprintln!("unknown engine {other}");
             std::process::exit(2);
